@@ -55,7 +55,8 @@ class MIADistinguisherMixin(_PartitionnedDistinguisherBaseMixin):
             for trace_idx in range(traces.shape[0]):
                 x = traces[trace_idx, sample_idx]
                 if x >= min_edge and x < max_edge:
-                    bin_idx = int((x - min_edge) * norm)
+                    # Rounding can push a sample just below the last edge to nbins: keep it in the last bin.
+                    bin_idx = min(int((x - min_edge) * norm), nbins - 1)
                 elif x == max_edge:
                     bin_idx = nbins - 1
                 else:
